@@ -153,7 +153,7 @@ class Recorder:
         inst = self.instances[i]
         self.ev = [{"op": "begin", "P": inst["P"], "Fn": inst["Fn"], "Fd": inst["Fd"], "H": inst["H"], "A": inst["A"],
                     "w": inst["w"], "reads": inst["reads"], "a": [int(x) for x in kw["genotype_alleles"]],
-                    "kind": "gibbs" if kw.get("step_type", 0) == 0 else "mh", "tag": inst.get("tag", "")}]
+                    "kind": "gibbs" if kw.get("step_type", 0) == 0 else "mh", "tag": inst.get("tag", ""), "tile": inst.get("tile", 1)}]
         try:
             return self.o[4](**kw)
         finally:
